@@ -117,6 +117,8 @@ def j_type(tok):
     if kind == 'subint':
         return {'<class>': 'subint', 'name': scope_name(tok['name']),
                 'range': {'<class>': 'range', 'from': pay['range']['from'], 'to': pay['range']['to']}}
+    if kind == 'extern':
+        return {'<class>': 'extern', 'name': scope_name(tok['name']), 'value': {'<class>': 'data', 'value': pay['value']}}
     return {'<class>': kind, 'name': scope_name(tok['name'])}       # unknown type class: skipped by the parser
 
 
@@ -256,8 +258,8 @@ def project(fct, tokens):
             else:
                 ent = _entry(kind, obj, table)
                 if kind == 'interface':
-                    ent['types'] = [dict(_entry('enum' if type(t).__name__ == 'Enum' else 'subint', t, table),
-                                         kind='enum' if type(t).__name__ == 'Enum' else 'subint')
+                    tkind = {'Enum': 'enum', 'SubInt': 'subint', 'Extern': 'extern'}
+                    ent['types'] = [dict(_entry(tkind.get(type(t).__name__, '?'), t, table), kind=tkind.get(type(t).__name__, '?'))
                                     for t in obj.types.elements]
                     if list(obj.ns_trail.fqn.items) != ent['fqn']:
                         ent['pay'] = '?ns_trail-differs-from-fqn'
